@@ -185,6 +185,11 @@ def fixed_point_bounded_instance():
             # the true partition itself as a hard one-hot start of boolean / integer element type (labels_to_one_hot style)
             blur = 0.0
             init = np.broadcast_to(onehot, (F, K, N)).astype([bool, np.int64][(inp['seed'] // 5) % 2])
+        if (inp['seed'] // 11) % 3 == 0 and model in ('cwmm', 'cacgmm'):
+            # a single-precision pipeline: complex64 STFT and float32 starts (masks of a neural network)
+            y = y.astype(np.complex64)
+            if init.dtype.kind == 'f':
+                init = init.astype(np.float32)
         if model in ('gcacgmm', 'vmfcacgmm'):
             cls = GCACGMMTrainer if model == 'gcacgmm' else VMFCACGMMTrainer
             # (the inline alignment between the two streams is an option of the integration models)
